@@ -24,7 +24,7 @@ func init() {
 		Technique: "runtime monitor: concatenation oracle + shadow picture-id counter + independent RFC 7741 descriptor parser/encoder; exhaustive flag space for the decoder",
 		Assumptions: []string{
 			"fields whose presence flag is clear are not compared (the RFC says they are ignored)",
-			"a complete descriptor followed by zero payload bytes may be accepted or rejected (RFC silent); if accepted the fields must match",
+			"a complete descriptor is accepted whatever follows it, also when no payload byte follows (it is not cut short)",
 		},
 		Strata: []fw.Stratum{
 			{Name: "payloader-short-runs", N: fw.Const(40000, 1000000), Run: c11Short},
@@ -247,11 +247,8 @@ func c11Dec(c *fw.Ctx, i int) {
 			c.Evals(1)
 			wit := fw.W("input", fw.Hex(in), "descriptor_len", len(enc), "payload_len", plen, "encoded", fmt.Sprintf("%+v", d))
 			if err != nil {
-				if plen == 0 {
-					c.Count("complete_descriptor_without_payload_rejected(allowed)", 1)
-					continue
-				}
-				c.Fail("C11/decoder/rejects-well-formed", "VP8Packet rejects a well-formed descriptor followed by payload: "+err.Error(), wit)
+				// a complete descriptor is not "cut short", whatever follows it (also nothing)
+				c.Fail(fmt.Sprintf("C11/decoder/rejects-well-formed/payload-bytes-%d", minI(plen, 1)), "VP8Packet rejects a complete, well-formed descriptor: "+err.Error(), wit)
 				return
 			}
 			bad := ""
